@@ -217,6 +217,68 @@ func C03(c *fw.Ctx) {
 		}
 	}
 	rec()
+	// escaping closures: a function F with a parameter and a body-level local; a closure declared at
+	// one of five sites of F's body reads / assigns one of them, escapes through a program-level
+	// variable and is used after F has returned: directly, after other calls have come and gone, and
+	// from inside a function whose own parameter / local has the same name (caller locals stay invisible)
+	sites := []string{"top", "block", "if", "for", "while", "nested-block"}
+	for _, site := range sites {
+		for _, target := range []string{"p", "loc"} {
+			for _, act := range []string{"read", "assign"} {
+				for use := 0; use < 4; use++ {
+					if !c.Mine() {
+						continue
+					}
+					var cbody []*model.N
+					if act == "assign" {
+						cbody = append(cbody, model.ExprS(model.Asg(target, model.Bin("+", model.Id(target), model.Num(1)))))
+					}
+					cbody = append(cbody, model.Return(model.Id(target)))
+					decl := []*model.N{model.Fun("inner", nil, cbody...), model.ExprS(model.Asg("g", model.Id("inner")))}
+					var nest []*model.N
+					switch site {
+					case "top":
+						nest = decl
+					case "block":
+						nest = []*model.N{model.Block(decl...)}
+					case "nested-block":
+						nest = []*model.N{model.Block(model.Var("mid", model.Num(5)), model.Block(decl...))}
+					case "if":
+						nest = []*model.N{model.If(model.Bin(">", model.Id("p"), model.Num(0)), model.Block(decl...), nil)}
+					case "for":
+						nest = []*model.N{model.For(model.Var("k", model.Num(0)), model.Bin("<", model.Id("k"), model.Num(1)), model.Asg("k", model.Num(1)), model.Block(decl...))}
+					case "while":
+						nest = []*model.N{model.While(model.Bin("==", model.Id("g"), model.Nil()), model.Block(decl...))}
+					}
+					fbody := append([]*model.N{model.Var("loc", model.Bin("*", model.Id("p"), model.Num(10)))}, nest...)
+					fbody = append(fbody, model.Return(model.Id("loc")))
+					prog := []*model.N{
+						model.Var("g", model.Nil()),
+						model.Fun("F", []string{"p"}, fbody...),
+						model.Fun("other", []string{"p"}, model.Var("loc", model.Num(777)), model.Var("z", model.Bin("+", model.Id("p"), model.Id("loc"))), model.Return(model.Id("z"))),
+						model.Fun("viaCaller", []string{"p"}, model.Var("loc", model.Num(555)), model.Return(model.CallN("g"))),
+						model.Print(model.CallN("F", model.Num(3))),
+					}
+					switch use {
+					case 0:
+						prog = append(prog, model.Print(model.CallN("g")), model.Print(model.CallN("g")))
+					case 1:
+						prog = append(prog, model.Print(model.CallN("other", model.Num(42))), model.Print(model.CallN("g")), model.Print(model.CallN("other", model.Num(43))), model.Print(model.CallN("g")))
+					case 2:
+						prog = append(prog, model.Print(model.CallN("viaCaller", model.Num(99))), model.Print(model.CallN("g")))
+					case 3:
+						prog = append(prog, model.Var("g1", model.Id("g")), model.ExprS(model.Asg("g", model.Nil())), model.Print(model.CallN("F", model.Num(8))),
+							model.Print(model.CallN("g1")), model.Print(model.CallN("g")), model.Print(model.CallN("viaCaller", model.Num(1))), model.Print(model.CallN("g1")))
+					}
+					_, _, skipped := judge(c, prog, judgeOpts{SigPrefix: "escaping-closure|" + site})
+					if !skipped {
+						c.R.States++
+						c.R.Transitions++
+					}
+				}
+			}
+		}
+	}
 	c.R.Traces = c.R.States
 	_ = strings.Join
 }
